@@ -18,6 +18,7 @@ type chainProg struct {
 	callLine  []int         // line of the call from level i to level i+1
 	faultLine []map[int]int // level → fault kind → line
 	variant   string
+	files     map[string]string // when set: the chain lives in an imported package, loaded with Load (public API only)
 }
 
 var faultKinds = []string{"index", "divzero", "panic", "nilstruct", "nilfunc", "nilmap", "slicebounds"}
@@ -31,23 +32,35 @@ func genChain(depth int, variant string) *chainProg {
 		sb.WriteString(s + "\n")
 		line++
 	}
-	w("package main")
+	imported := variant == "imported"
+	pkg, fpre, mpre := "main", "f", "m"
+	if imported {
+		// the chain is package util at import path lib/util (path differs from the package name)
+		pkg, fpre, mpre = "util", "F", "M"
+	}
+	w("package " + pkg)
 	w("")
 	w("type T struct {")
 	w("\tv int")
 	w("}")
 	w("")
+	if imported {
+		w("func NewT() *T {")
+		w("\treturn &T{}")
+		w("}")
+		w("")
+	}
 	p.callLine = make([]int, depth)
 	p.faultLine = make([]map[int]int, depth)
 	p.fname = make([]string, depth)
 	for i := 0; i < depth; i++ {
 		method := i%3 == 1
 		if method {
-			p.fname[i] = fmt.Sprintf("main.T.m%d", i)
-			w(fmt.Sprintf("func (t *T) m%d(sel int, d int, s []int) int {", i))
+			p.fname[i] = fmt.Sprintf("%s.T.%s%d", pkg, mpre, i)
+			w(fmt.Sprintf("func (t *T) %s%d(sel int, d int, s []int) int {", mpre, i))
 		} else {
-			p.fname[i] = fmt.Sprintf("main.f%d", i)
-			w(fmt.Sprintf("func f%d(sel int, d int, s []int, t *T) int {", i))
+			p.fname[i] = fmt.Sprintf("%s.%s%d", pkg, fpre, i)
+			w(fmt.Sprintf("func %s%d(sel int, d int, s []int, t *T) int {", fpre, i))
 		}
 		p.faultLine[i] = map[int]int{}
 		switch variant {
@@ -114,9 +127,9 @@ func genChain(depth int, variant string) *chainProg {
 			nextMethod := (i+1)%3 == 1
 			var call string
 			if nextMethod {
-				call = fmt.Sprintf("t.m%d(sel, d, s)", i+1)
+				call = fmt.Sprintf("t.%s%d(sel, d, s)", mpre, i+1)
 			} else {
-				call = fmt.Sprintf("f%d(sel, d, s, t)", i+1)
+				call = fmt.Sprintf("%s%d(sel, d, s, t)", fpre, i+1)
 			}
 			switch variant {
 			case "multiline":
@@ -157,6 +170,15 @@ func genChain(depth int, variant string) *chainProg {
 		w("}")
 		w("")
 	}
+	if imported {
+		p.files = map[string]string{
+			"lib/util/util.go": sb.String(),
+			"main/main.go":     "package main\n\nimport \"lib/util\"\n\nfunc Entry(sel int, d int) int {\n\treturn util.F0(sel, d, []int{1, 2, 3}, util.NewT())\n}\n",
+		}
+		p.callLine = append(p.callLine, 6)
+		p.src = sb.String()
+		return p
+	}
 	w("func Entry(sel int, d int) int {")
 	w("\treturn f0(sel, d, []int{1, 2, 3}, &T{})")
 	p.callLine = append(p.callLine, line) // Entry's call to f0 (index depth)
@@ -177,7 +199,7 @@ func checkC20(tier string, seed int64) int {
 	}
 	var chains []*chainProg
 	for _, d := range depths {
-		for _, v := range []string{"plain", "loop", "switch", "stmt", "multiline", "multiline2", "lambda", "rawstring"} {
+		for _, v := range []string{"plain", "loop", "switch", "stmt", "multiline", "multiline2", "lambda", "rawstring", "imported"} {
 			chains = append(chains, genChain(d, v))
 		}
 	}
@@ -202,8 +224,18 @@ func checkC20(tier string, seed int64) int {
 			vs, _ := ex.Call(ex.Func("Int32"), sel)
 			vd, _ := ex.Call(ex.Func("Int32"), d)
 			texts := map[int]string{}
-			for _, mode := range []int{0, 1, 2} {
-				res, pan := ex.Call(ex.Func("verifEvalCall"), p.src, "main.Entry", uint64(1), gosx.MkSlice(vs, vd), uint64(mode))
+			modes := []int{0, 1, 2}
+			if p.files != nil {
+				modes = []int{0} // Load is reachable through the public pipeline only
+			}
+			for _, mode := range modes {
+				var res gosx.Value
+				var pan *gosx.TargetPanic
+				if p.files != nil {
+					res, pan = ex.Call(ex.Func("verifLoadCall"), gosx.MkStringMap(p.files), "main", "main.Entry", uint64(1), gosx.MkSlice(vs, vd))
+				} else {
+					res, pan = ex.Call(ex.Func("verifEvalCall"), p.src, "main.Entry", uint64(1), gosx.MkSlice(vs, vd), uint64(mode))
+				}
 				ex.OutGoat = nil
 				if pan != nil {
 					ex.Assert(tt.Bool(false), "C20/host-panic", ex.PanicText(pan), nil)
@@ -224,7 +256,7 @@ func checkC20(tier string, seed int64) int {
 				return
 			}
 			id := fmt.Sprintf("C20/%s/%s", p.variant, faultKinds[sv])
-			for _, mode := range []int{0, 1, 2} {
+			for _, mode := range modes {
 				lines := strings.Split(texts[mode], "\n")
 				m := btLineRE.FindStringSubmatch(lines[0])
 				mname := []string{"public", "opt-on", "opt-off"}[mode]
@@ -252,7 +284,7 @@ func checkC20(tier string, seed int64) int {
 				}
 			}
 			// on vs off: the same (function, line) sequence (columns and opcode mnemonics legitimately differ)
-			if posSeq(texts[1]) != posSeq(texts[2]) {
+			if len(modes) == 3 && posSeq(texts[1]) != posSeq(texts[2]) {
 				ex.Assert(tt.Bool(false), id+"/optimizer-on-off-differ", "reported functions/lines differ between optimizer on and off", map[string]interface{}{"on": texts[1], "off": texts[2]})
 			}
 			st.mu.Lock()
@@ -291,7 +323,7 @@ func checkC20(tier string, seed int64) int {
 			continue
 		}
 		c.AddViolation(Violation{Key: f.f.ID, What: fmt.Sprintf("%s (chain depth %d, variant %s, inputs %s): %v", f.f.Msg, f.p.depth, f.p.variant, modelString(f.f.Model), detail["native"]),
-			Replay: map[string]interface{}{"kind": "prog", "src": f.p.src, "entry": "Entry", "params": []Param{{"sel", "int"}, {"d", "int"}}, "results": []string{"int"}, "model": f.f.Model, "mode": 0, "assertion": f.f.ID}})
+			Replay: map[string]interface{}{"kind": "prog", "src": f.p.src, "entry": "Entry", "params": []Param{{"sel", "int"}, {"d", "int"}}, "results": []string{"int"}, "model": f.f.Model, "mode": 0, "files": f.p.files, "assertion": f.f.ID}})
 	}
 	agg.Into(c, "")
 	// packed-position lemma (shape L): symbolic line and column through the real newPos / pos.info
@@ -303,16 +335,23 @@ func checkC20(tier string, seed int64) int {
 	lagg.Into(c, "pos_lemma_")
 	c.Assumption("position lemma: line and column are arbitrary positive int32 values; file/function names from a fixed list; line and column must read back exactly below 65535, names always, and info must not fail for any value")
 	c.Cov("paths_compared", st.compared)
-	c.Cov("rule", fmt.Sprintf("call chains of depth %v through functions and methods, in eight variants (plain, preceded by a loop, by a switch, by a function literal, by a multi-line raw string and block comment; call as statement; call spread over two lines in two ways) with seven fault kinds (index, divide by zero, panic, nil struct access, nil func call, nil map write, slice bounds) planted at generator-known lines in every level; symbolic selectors decide which fault fires at which depth, so all (depth, fault) pairs of a chain are covered by one exploration; the real error text is checked in three pipelines (public Eval, in-package optimizer on, optimizer off): first line = function and line of the fault, then one line per active call innermost first with the line of the call, and on == off", depths))
+	c.Cov("rule", fmt.Sprintf("call chains of depth %v through functions and methods, in nine variants (the chain in a package imported under a path that differs from its name, loaded with Load; plain, preceded by a loop, by a switch, by a function literal, by a multi-line raw string and block comment; call as statement; call spread over two lines in two ways) with seven fault kinds (index, divide by zero, panic, nil struct access, nil func call, nil map write, slice bounds) planted at generator-known lines in every level; symbolic selectors decide which fault fires at which depth, so all (depth, fault) pairs of a chain are covered by one exploration; the real error text is checked in three pipelines (public Eval, in-package optimizer on, optimizer off): first line = function and line of the fault, then one line per active call innermost first with the line of the call, and on == off", depths))
 	return c.Finish(false)
 }
 
 func (c *Ctx) replayC20(p *chainProg, f gosx.Failure) (bool, map[string]interface{}) {
 	args := []map[string]interface{}{{"T": "int32", "V": uint64(int64(int32(f.Model["sel"])))}, {"T": "int32", "V": uint64(int64(int32(f.Model["d"])))}}
 	texts := map[int]string{}
-	for _, mode := range []int{0, 1, 2} {
+	modes := []int{0, 1, 2}
+	if p.files != nil {
+		modes = []int{0}
+	}
+	for _, mode := range modes {
 		var gr nativeProgResp
 		req := map[string]interface{}{"Op": "prog", "Prog": map[string]interface{}{"Src": p.src, "Entry": "main.Entry", "NRes": 1, "Args": args, "Mode": mode}}
+		if p.files != nil {
+			req = map[string]interface{}{"Op": "prog", "Prog": map[string]interface{}{"Src": "package main\n", "Files": p.files, "Pkg": "main", "Entry": "main.Entry", "NRes": 1, "Args": args, "Mode": 0}}
+		}
 		if _, err := c.Native.RunOnce(req, &gr, 60); err != nil {
 			return strings.Contains(f.ID, "host-panic"), map[string]interface{}{"native": "host crash"}
 		}
@@ -320,7 +359,7 @@ func (c *Ctx) replayC20(p *chainProg, f gosx.Failure) (bool, map[string]interfac
 	}
 	dv, sv := int(int32(f.Model["d"])), int(int32(f.Model["sel"]))
 	bad := ""
-	for _, mode := range []int{0, 1, 2} {
+	for _, mode := range modes {
 		lines := strings.Split(texts[mode], "\n")
 		m := btLineRE.FindStringSubmatch(lines[0])
 		if m == nil || m[1] != p.fname[dv] || m[3] != fmt.Sprint(p.faultLine[dv][sv]) {
@@ -342,7 +381,7 @@ func (c *Ctx) replayC20(p *chainProg, f gosx.Failure) (bool, map[string]interfac
 			break
 		}
 	}
-	if bad == "" && posSeq(texts[1]) != posSeq(texts[2]) {
+	if bad == "" && len(modes) == 3 && posSeq(texts[1]) != posSeq(texts[2]) {
 		bad = fmt.Sprintf("optimizer on: %q; off: %q", truncate(texts[1], 200), truncate(texts[2], 200))
 	}
 	return bad != "", map[string]interface{}{"native": bad}
